@@ -190,6 +190,12 @@ class Pipeline:
             input_directory, source_path, destination_path = backlog.pop()
             # Deferred paths are relative to the input directory of their file
             os.chdir(input_directory)
+            # Renames made in the meantime may have changed where the path leads to
+            deferred_absolute_path = (input_directory / destination_path).resolve()
+            if not deferred_absolute_path.is_relative_to(input_directory):
+                raise InvalidDestinationError(
+                    f"Path {destination_path} is no longer relative to the input directory",
+                )
             self.log.debug(
                 "Trying again to rename '%s' into '%s'", source_path, destination_path
             )
